@@ -82,6 +82,16 @@ func (r *vssRun) onPoly(commits []kyber.Point, d gDeal) bool {
 	return got.Equal(want)
 }
 
+// sidConsistent: the session id a deal announces is the one of its own commitments and threshold.
+// The harness cannot compute the (unexported) session id function, but every deal it builds announces
+// the id of the dealer's genuine deals, which is consistent exactly with the genuine content.
+func (r *vssRun) sidConsistent(d gDeal) bool {
+	if !bytes.Equal(d.SID, r.honest[0].SID) {
+		return true // not an id the harness can judge
+	}
+	return samePoints(d.Commits, r.honest[0].Commits) && d.T == r.honest[0].T
+}
+
 func samePoints(a, b []kyber.Point) bool {
 	if len(a) != len(b) {
 		return false
@@ -153,7 +163,9 @@ func (r *vssRun) checkInvariants(step string) {
 			// I5: any t approved deals reconstruct the committed secret
 			var approved []gDeal
 			for i := 0; i < r.n; i++ {
-				if r.views[i].ready && r.views[i].resp[uint32(i)] && r.sent[i] != nil && r.genuine[i] != nil && r.genuine[i].Approved &&
+				// approvers in THIS party's view: it has accepted i's approval (a verifier that approved a
+				// deal under other commitments answers with another session id and is not among them)
+				if v.resp[uint32(i)] && r.views[i].ready && r.views[i].resp[uint32(i)] && r.sent[i] != nil && r.genuine[i] != nil && r.genuine[i].Approved &&
 					bytes.Equal(r.sent[i].SID, v.sid) {
 					approved = append(approved, *r.sent[i])
 				}
@@ -188,7 +200,7 @@ func (r *vssRun) checkInvariants(step string) {
 	}
 }
 
-var vssDealFaults = []string{"honest", "honest", "honest", "share+delta", "commitments-altered", "wrong-index", "t-out-of-range", "t-differs", "wrong-recipient", "cipher-bitflip", "forged-signature", "signed-by-other", "never"}
+var vssDealFaults = []string{"honest", "honest", "honest", "share+delta", "commitments-altered", "foreign-consistent", "wrong-index", "t-out-of-range", "t-differs", "wrong-recipient", "cipher-bitflip", "forged-signature", "signed-by-other", "never"}
 
 func (r *vssRun) deliverDeal(i int, replay bool) {
 	fault := r.faults[i]
@@ -200,6 +212,10 @@ func (r *vssRun) deliverDeal(i int, replay bool) {
 	case "commitments-altered":
 		k := rapid.IntRange(0, len(d.Commits)-1).Draw(r.t, "ck")
 		d.Commits[k] = r.g.Point().Add(d.Commits[k], r.g.Point().Base())
+	case "foreign-consistent":
+		// a deal that is perfectly consistent in itself (share on its own polynomial, right index and
+		// threshold) but for OTHER commitments than everybody else gets, carrying this run's session id
+		d = r.justDeal(i, "foreign-commitments")
 	case "wrong-index":
 		d.I = uint32((i + 1) % r.n)
 		d.RI = d.I
@@ -247,7 +263,7 @@ func (r *vssRun) deliverDeal(i int, replay bool) {
 	}
 	v := r.views[i]
 	wasReady := v.ready
-	dealValid := r.validT(d.T) && d.I == uint32(i) && r.onPoly(d.Commits, d)
+	dealValid := r.validT(d.T) && d.I == uint32(i) && r.onPoly(d.Commits, d) && r.sidConsistent(d)
 	mustError := wasReady || transport != "" || d.I != uint32(i)
 	switch {
 	case perr != nil:
@@ -278,6 +294,11 @@ func (r *vssRun) deliverDeal(i int, replay bool) {
 		}
 		if resp.Index != uint32(i) {
 			r.fail("response-index", "%s: response carries index %d", step, resp.Index)
+		}
+		// a response speaks about the commitments the verifier RECEIVED: if those differ from the ones
+		// the dealer gave everybody else, it must not carry the session id of the others' run
+		if !samePoints(d.Commits, r.honest[i].Commits) && bytes.Equal(resp.SID, r.honest[i].SID) {
+			r.fail("response-binds-wrong-session", "%s: the response to a deal with other commitments carries the session id of the main run (approved=%v)", step, resp.Approved)
 		}
 		v.ready, v.sid, v.t, v.commits = true, d.SID, d.T, d.Commits
 		v.resp[uint32(i)] = resp.Approved
@@ -515,7 +536,7 @@ func (r *vssRun) deliverJustification() {
 	// very commitments this verifier holds, and its share opens them.  (A share that happens to lie on
 	// this verifier's polynomial but is revealed under other commitments is not a justification of
 	// this deal: a Byzantine dealer that gave this verifier altered commitments can produce one.)
-	correct := j.Deal.I == j.Index && tOK && bytes.Equal(j.Deal.SID, v.sid) && samePoints(j.Deal.Commits, v.commits) && r.onPoly(v.commits, j.Deal)
+	correct := j.Deal.I == j.Index && tOK && bytes.Equal(j.Deal.SID, v.sid) && samePoints(j.Deal.Commits, v.commits) && r.onPoly(v.commits, j.Deal) && r.sidConsistent(j.Deal)
 	step := fmt.Sprintf("justification(idx %d)->V%d", j.Index, to)
 	var err error
 	if pn := safely(func() { err = r.vers[to].ProcessJustification(j) }); pn != "" {
